@@ -777,7 +777,9 @@ class SerEval:
                     parts += list(v.parts)
                 else:
                     # struct pads with NULs / truncates silently
-                    run.notes.append(f"LOSSY struct 's' field of {n_l} octets from a value of {ln} octets: padded or truncated silently")
+                    ge = run.cons.decide(n_l - ln, ">=")
+                    kind = "padded" if ge is True else ("truncated" if run.cons.decide(n_l - ln, "<=") is True else "padded or truncated")
+                    run.notes.append(f"LOSSY:{kind} struct 's' field of {n_l} octets from a value of {ln} octets: {kind} silently")
                     parts.append(Blob(("lossy",), Lin(0), n_l))
             else:
                 if code in "bhilq":
